@@ -18,9 +18,9 @@ def classify(op, impl):
 
 def run_ms(ctx, kind):
     """kind: 'wait' (C05) or 'hold' (C06)"""
-    prefixes = {"wait": ["C05:"], "hold": ["C06:"], "both": ["C05:", "C06:"], "wait-c03": ["C03:"], "both-c17": ["C17:"]}[kind]
-    c03 = kind in ("wait-c03", "both-c17")      # these run the msw mode only (no real-time probes)
-    if kind == "wait-c03":
+    prefixes = {"wait": ["C05:"], "hold": ["C06:"], "both": ["C05:", "C06:"], "wait-c03": ["C03:"], "both-c17": ["C17:"], "wait-c06": ["C06:"]}[kind]
+    c03 = kind in ("wait-c03", "both-c17", "wait-c06")      # these run the msw mode only (no real-time probes)
+    if kind in ("wait-c03", "wait-c06"):
         kind = "wait"
     if kind == "both-c17":
         kind = "wait"       # waits only: every fourth case with T >= 3000 is then a request granted while parked (its dead entry must be dropped)
